@@ -90,8 +90,15 @@ Proof. unfold confirming_weight. rewrite fold_confirming. ring. Qed.
 Lemma weight_nonneg r : 0 <= weight_of r.
 Proof.
   unfold weight_of. destruct (Qle_bool 0 _) eqn:E.
-  - apply Qle_bool_iff, E.
+  - destruct (Qle_bool _ 1); [apply Qle_bool_iff, E | discriminate].
   - apply Qle_refl.
+Qed.
+
+Lemma weight_le_one r : weight_of r <= 1.
+Proof.
+  unfold weight_of. destruct (Qle_bool 0 _) eqn:E.
+  - destruct (Qle_bool _ 1) eqn:F; [apply Qle_bool_iff, F | apply Qle_refl].
+  - discriminate.
 Qed.
 
 Lemma sum_weights_nonneg rs : 0 <= sumQ (map weight_of rs).
